@@ -708,7 +708,7 @@ def gen_tied(rng, shared_bias=0.0, nsg=None, extras=True):
         k = rng.randint(2, 3)
         cur = x
         outs = []
-        if rng.random() < 0.12:
+        if extras and rng.random() < 0.12:
             outs.append(w0)   # the weight itself is also exported as a graph output
             info["tags"].add("tied_weight_is_output")
         sb = rng.random() < shared_bias
@@ -744,7 +744,7 @@ def gen_tied(rng, shared_bias=0.0, nsg=None, extras=True):
                 gr.out(z, [g.sg.tensors[x].shape[0], o])
                 outs[-1] = z
                 kinds.append("UNARY")
-        if rng.random() < 0.35:
+        if extras and rng.random() < 0.35:
             # tied embedding: the SAME table tensor is looked up and used as projection weights
             n = rng.randint(1, 3)
             ids = g.tensor(gr.name("ids"), [n], TT.INT32)
@@ -756,7 +756,7 @@ def gen_tied(rng, shared_bias=0.0, nsg=None, extras=True):
             outs.append(e)
             kinds.append("EMBEDDING_LOOKUP")
             info["tags"].add("tied_embedding")
-        if rng.random() < 0.4:
+        if extras and rng.random() < 0.4:
             # the shared constant also feeds an elementwise op directly
             c = g.tensor(gr.name("wt"), [o, f], buffer=shared_buf) if rng.random() < 0.5 else w0
             xx = gr.add_input([o, f])
@@ -812,7 +812,7 @@ def gen_tied(rng, shared_bias=0.0, nsg=None, extras=True):
             outs += [y1, y2]
             kinds += ["ADD", second]
             info["tags"].add("tied_scalars")
-        if rng.random() < 0.2:
+        if extras and rng.random() < 0.2:
             # the shared buffer also backs a constant that NO operator reads: exported as a graph output, or just left in the table
             we = g.tensor(gr.name("w_export"), [o, f], buffer=shared_buf)
             if rng.random() < 0.6:
